@@ -30,3 +30,28 @@ def run_version(pid, tier, replay=None):
     with open(files[0]) as fh:
         ck.sample(json.loads(fh.readline()))
     return ck.finish(exhaustive=not ck.violations)
+
+
+def run_regress(pid, tier, replay=None):
+    ck = Check(pid, tier, "model_checking")
+    sc = ck.scratch
+    res = tlc(os.path.join(SPECDIR, "RegressMC.tla"), os.path.join(SPECDIR, "RegressMC.cfg"), sc, timeout=900, capture_prefix="1[45]1[45]1[45]1", stdout_path=sc.path("reg.out"), workers=8)
+    tlc_must_pass(res, "RegressMC")
+    ck.add_tlc(res, "enumeration")
+    exe = vlib.cc_build(sc.path("reg_h"), [os.path.join(vlib.HARNESS, "reg_h.c")] + vlib.repo_src("regress_simple.c", "regress_linear.c", "regress.c", "math.c", "a.c"), sc)
+    r = vlib.run_harness([exe, sc.path("reg.out"), sc.path("reg.ndjson")], timeout=600)
+    if r.returncode != 0:
+        if r.returncode in (97, 98, 99, -6, -11) or "Sanitizer" in (r.stderr or ""):
+            ck.violation("crash:regress", {"what": "sanitizer abort in the regression routines", "stderr": (r.stderr or "")[-1500:]})
+            return ck.finish()
+        raise Broken("regress harness failed: %s" % (r.stderr or "")[-800:])
+    files = vlib.split_file_lines(sc.path("reg.ndjson"), 14, sc.dir, "regb")
+    nev, bad = vlib.validate_collect(os.path.join(SPECDIR, "RegressTrace.tla"), os.path.join(SPECDIR, "RegressTrace.cfg"), files, sc)
+    for f, idx, ev in bad:
+        ck.violation("trace:regress:%s" % ev.get("f"), {"what": "TLC rejected: not the least squares line / not the documented gradient step", "event": ev})
+    ck.cov["evaluations"] = nev + len(bad); ck.cov["traces_validated_against_impl"] = nev; ck.cov["distinct_nontrivial"] = nev
+    ck.cov["rule"] = "one case = one data set (simple regression, 2-3 points) or one (model, two samples) pair (linear model with two coefficients)"
+    ck.assumptions.append("extension beyond the listed properties: least squares by the normal equations (all four entry points), prediction and its inverse, residuals, gradient / stochastic / batch steps with step size 1/2; a_regress_linear_mgd is not modelled")
+    with open(files[0]) as fh:
+        ck.sample(json.loads(fh.readline()))
+    return ck.finish(exhaustive=not ck.violations)
